@@ -118,6 +118,11 @@ class Module:
                 for sub in st.body:
                     if isinstance(sub, (ast.FunctionDef, ast.AsyncFunctionDef)):
                         self.funcs[st.name + "." + sub.name] = sub
+        # a module-level name that some function rebinds (`global X; X = ...`) holds state whatever it is bound to
+        for n in ast.walk(self.tree):
+            if isinstance(n, ast.Global):
+                for g in n.names:
+                    self.mutables[g] = True
         # later subscript stores at module level (BLOCK_WRITERS["snappy"] = f) add dispatch members
         for st in ast.walk(self.tree):
             if isinstance(st, ast.Assign) and len(st.targets) == 1 and isinstance(st.targets[0], ast.Subscript):
